@@ -110,6 +110,10 @@ class HarnessRejected(RuntimeError):
         self.req, self.raw = req, raw
 
 
+class DeadlineReached(RuntimeError):
+    """the time box of a directed search is used up"""
+
+
 class Session:
     """Runs requests on the real code, records them for the model comparison."""
 
@@ -134,6 +138,8 @@ class Session:
     def call(self, req, gate=EXACT, tag="", model=True):
         """execute on the real code; `model=False` keeps the request out of the model comparison
         (implementation-level oracle only: used where the model's list-based maps would be too slow)"""
+        if getattr(self, "deadline", None) and time.time() > self.deadline:
+            raise DeadlineReached("search time box used up after %d requests" % len(self.records))
         raw = self.impl.call(req)
         self.records.append((req, raw, gate if model else "skip", tag))
         r = Resp(raw)
